@@ -67,6 +67,8 @@ def plan_copy(w: World, op: dict) -> Plan:
         fr = model_filter(sm, pred.model_verdict)
         used = sorted({pred.verdict_of(u) for u in fr.calls})
         trigger = "copy/filtered/" + "+".join(used)
+        if any(pred.mode_of(u) == "ret_cls" for u in fr.calls):
+            trigger += "/ret_cls"
         owner = "C08"
     else:
         owner = "C07"
